@@ -1,1 +1,58 @@
-// harnesses for module session (included under cfg(kani))
+// C16: settings flow by value from session to request (copy-on-write over Arc<BaseSettings>).
+
+include!("hmacro.rs");
+
+mod verif_session {
+    use super::*;
+    use crate::verif::{make_url, UrlSpec};
+
+    /// stub for url::Url::parse: every base URL in these harnesses is "http://h/"
+    pub fn url_parse_fixed(_input: &str) -> std::result::Result<url::Url, url::ParseError> {
+        Ok(make_url(&UrlSpec::simple(false, b"h")))
+    }
+
+    fn plain_session() -> Session {
+        let st = crate::request::verif_request::settings(crate::request::proxy::verif_proxy_settings(None, None, Vec::new()));
+        Session {
+            base_settings: Arc::new(st),
+        }
+    }
+
+    #[kani::proof]
+    #[kani::unwind(6)]
+    #[kani::stub(url::Url::parse, url_parse_fixed)]
+    fn c16_q_session_change_after_request() {
+        let a: u32 = kani::any();
+        let b: u32 = kani::any();
+        let mut s = plain_session();
+        s.max_redirections(a);
+        let r1 = s.get("x");
+        // later change on the session must not reach r1 (copy-on-write)
+        s.max_redirections(b);
+        let v1 = crate::request::builder::builder_settings(&r1);
+        assert!(v1.max_redirections == a, "C16: request sees a setting changed on the session after the request was created");
+        assert!(s.base_settings.max_redirections == b, "C16: session setter lost");
+        kani::cover!(a != b, "must: distinct values");
+        std::mem::forget(r1);
+        std::mem::forget(s);
+    }
+
+    #[kani::proof]
+    #[kani::unwind(6)]
+    #[kani::stub(url::Url::parse, url_parse_fixed)]
+    fn c16_q_request_change_does_not_reach_session() {
+        let a: u32 = kani::any();
+        let c: u32 = kani::any();
+        let f: bool = kani::any();
+        let mut s = plain_session();
+        s.max_redirections(a);
+        s.follow_redirects(f);
+        let r2 = s.post("x").max_redirections(c);
+        let v2 = crate::request::builder::builder_settings(&r2);
+        assert!(v2.max_redirections == c && v2.follow_redirects == f, "C16: request-level override lost or session value at creation not inherited");
+        assert!(s.base_settings.max_redirections == a && s.base_settings.follow_redirects == f, "C16: request-level setter changed the session");
+        kani::cover!(a != c, "must: distinct values");
+        std::mem::forget(r2);
+        std::mem::forget(s);
+    }
+}
